@@ -154,6 +154,25 @@ func universe(vals []interface{}) []J {
 	return acc
 }
 
+// hasVarKey: some map in x has a key that is a variable
+func hasVarKey(x interface{}) bool {
+	switch v := x.(type) {
+	case map[string]interface{}:
+		for k, y := range v {
+			if len(k) > 0 && k[0] == '?' || hasVarKey(y) {
+				return true
+			}
+		}
+	case []interface{}:
+		for _, y := range v {
+			if hasVarKey(y) {
+				return true
+			}
+		}
+	}
+	return false
+}
+
 func main() {
 	var (
 		seed   = flag.Int64("seed", 1, "seed")
@@ -176,6 +195,9 @@ func main() {
 	ctx.Verbosity = core.NOTHING
 
 	run := func(p, d J, b0 J, via string) {
+		if via == "bind" && hasVarKey(p) {
+			via = "match" // Bind does not substitute property variables
+		}
 		if via == "envmatch" && (hasNil(p) || hasNil(d)) {
 			via = "matches"
 		}
@@ -207,6 +229,22 @@ func main() {
 				for _, b := range got {
 					bss = append(bss, core.Bindings(b))
 				}
+			}
+		} else if via == "bind" {
+			// what a pattern query does with an incoming binding: substitute it into the
+			// pattern (Bindings.Bind), match, and extend the incoming binding by each result
+			bound := bs.Bind(ctx, pin)
+			var more []core.Bindings
+			more, err = core.Matches(ctx, bound, din)
+			for _, m := range more {
+				ext := core.Bindings{}
+				for k, v := range b0 {
+					ext[k] = clone(v)
+				}
+				for k, v := range m {
+					ext[k] = v
+				}
+				bss = append(bss, ext)
 			}
 		} else if via == "matches" && len(b0) == 0 {
 			bss, err = core.Matches(ctx, pin, din)
@@ -241,6 +279,7 @@ func main() {
 			if k%(3**stride) == 0 {
 				run(p, d, J{"?x": 1.0}, "match")
 				run(p, d, J{}, "gotyped")
+				run(p, d, J{"?x": 1.0}, "bind")
 			}
 			if k%(4**stride) == 0 {
 				run(p, d, J{}, "plaintyped")
@@ -263,6 +302,9 @@ func main() {
 		b0 := J{}
 		if via == "match" && g.R.Intn(2) == 0 {
 			b0["?x"] = g.Scalar()
+			if g.R.Intn(2) == 0 {
+				via = "bind"
+			}
 		}
 		run(p, d, b0, via)
 	}
